@@ -339,7 +339,7 @@ def plan(ctx):
     for i in range(n):
         kind = rng.choice(KINDS)
         fl = rng.choice(targets_for(kind))[0]
-        pol, knobs = draw_env(rng, tcp=lib.is_remote(kind))
+        pol, knobs = draw_env(rng, tcp=lib.is_remote(kind), adversarial_ok=True)
         ending = rng.choice(['natural', 'natural', 'terminate', 'sigkill', 'sigterm'])
         if lib.base_kind(kind) == 'thread' and ending in ('sigkill', 'sigterm'):
             ending = 'terminate'
@@ -392,7 +392,7 @@ def smoke_cases(ctx, n):
     for i in range(n):
         kind = rng.choice(KINDS)
         fl = rng.choice(targets_for(kind))[0]
-        pol, knobs = draw_env(rng, tcp=lib.is_remote(kind))
+        pol, knobs = draw_env(rng, tcp=lib.is_remote(kind), adversarial_ok=True)
         fault = None
         ending = 'natural'
         if lib.base_kind(kind) != 'thread' and rng.random() < 0.5:
